@@ -17,7 +17,9 @@ RULE = ("fault = process death (os._exit in a forked child) at EVERY SQLAlchemy 
         "1.x and 2.0 forms, two- and three-item batches) on a standard store; AND SIGKILL on entering "
         "every k-th write-class system call on the database / journal files during the request "
         "(strace attached to the forked child; 12 variants quick, all thorough), which enumerates "
-        "the points inside SQLite's commit; thorough adds "
+        "the points inside SQLite's commit; the same two enumerations for the FIRST start of a server "
+        "on a database file that does not exist yet (schema creation) followed by a Create; after "
+        "every death the reopened store must also accept, return and list a new key; thorough adds "
         "Hypothesis workloads SIGKILLed by the parent at drawn instants. After the death a fresh "
         "engine is opened on the surviving file. non-trivial = crash point strictly between the "
         "first write statement and the last commit of the request; distinct = (variant, event index)")
@@ -179,6 +181,18 @@ def check_survivor(dbpath, cal, info, label):
                 for x in (g, a):
                     if x["status"] != "SUCCESS":
                         buckets.append(("C09|object-unreadable-after-crash|%s|%s" % (x["op"], x["reason"]), "uid %s: %r" % (uid, x)))
+        # ... and the store is still usable: a new key can be created, read and listed
+        c = cli.one(F.create_item(extra_attrs=[["Name", "after-crash", 0]]))
+        if c["status"] != "SUCCESS":
+            buckets.append(("C09|store-unusable-after-crash|Create|%s" % c["reason"],
+                            "Create on the reopened store: %r" % (c,)))
+        else:
+            g = cli.one({"op": "Get", "uid": c["payload"]["uid"]})
+            l = cli.one({"op": "Locate", "attrs": [["Name", "after-crash"]]})
+            if g["status"] != "SUCCESS" or l["status"] != "SUCCESS" or \
+                    c["payload"]["uid"] not in (l["payload"] or {}).get("uids", []):
+                buckets.append(("C09|store-unusable-after-crash|new-object-not-readable",
+                                "Get %r / Locate %r" % (g, l)))
         for e in cli.internal:
             buckets.append((core.exc_bucket(PID, "internal-error-after-crash", e), repr(e)))
     finally:
@@ -353,7 +367,101 @@ def syscall_worker(tier, shard, nshards):
     return col
 
 
+# ---------------------------------------------------------------- death during the first start
+_startcal = {}
+
+
+def _startup_send(server):
+    H.CLOCK.now = NOW
+    req = {"v": [1, 2], "items": [F.create_item(extra_attrs=[["Name", "first", 0]])]}
+    r = server.process(H.encode_request(req), ("alice", None))
+    if r["resp"] is None:
+        return {"error": repr(r["error"])}
+    return {"items": H.response_plain(r["resp"], (1, 2))}
+
+
+def startup_calibration():
+    """Event log (and, with strace, system calls) of an uncrashed first start + Create, and the
+    two legal survivors: the empty store and the store holding the created key."""
+    if _startcal:
+        return _startcal
+    empty = H.Server()
+    legal0 = hist.snapshot(empty)
+    empty.close()
+    dbp, d, info = crash.startup_run(None, _startup_send)
+    if not info["acked"] or not info["events"]:
+        raise core.HarnessError("start-up calibration failed: %r" % (info,))
+    items = info["ack"]["items"]
+    if items[0]["status"] != "SUCCESS":
+        raise core.HarnessError("start-up calibration: Create failed: %r" % (items,))
+    mask = set(hist.random_value_uids(items))
+    s = H.Server(db=dbp)
+    legal1 = hist.snapshot(s, mask)
+    s.close()
+    shutil.rmtree(d, ignore_errors=True)
+    var = {"label": "Startup", "v": [1, 2], "items": []}
+    _startcal.update({"log": [tuple(e) for e in info["events"]], "items": items, "mask": sorted(mask),
+                      "legal": [hist.snapshot_masked(legal0, mask), legal1], "var": var,
+                      "calls": None})
+    ok, _ = crash.strace_available()
+    if ok:
+        dbp, d, info = crash.startup_run(None, _startup_send, trace=True)
+        shutil.rmtree(d, ignore_errors=True)
+        if info["acked"] and info["attached"]:
+            _startcal["calls"] = info["calls"]
+    return _startcal
+
+
+def all_startup_points():
+    cal = startup_calibration()
+    pts = [{"label": "Startup", "fault": "startup", "k": k} for k in range(len(cal["log"]))]
+    pts.append({"label": "Startup", "fault": "startup", "k": None})
+    for name in sorted(cal["calls"] or {}):
+        for k in range(1, cal["calls"][name] + 1):
+            pts.append({"label": "Startup", "fault": "startup", "syscall": name, "k": k})
+    return pts
+
+
+def run_startup_point(spec):
+    cal = startup_calibration()
+    if spec.get("syscall"):
+        dbp, d, info = crash.startup_run(None, _startup_send, inject=(spec["syscall"], spec["k"]))
+    else:
+        dbp, d, info = crash.startup_run(None, _startup_send, die_at=spec["k"])
+    try:
+        if isinstance(info["ack"], dict) and "child_error" in info["ack"]:
+            raise core.HarnessError("child failed: %r" % (info["ack"],))
+        if not info["attached"]:
+            raise core.HarnessError("strace could not attach")
+        b = check_survivor(dbp, cal, info, "Startup")
+    finally:
+        shutil.rmtree(d, ignore_errors=True)
+    k = spec["k"]
+    if spec.get("syscall"):
+        cl = ["variant:Startup", "syscall:" + spec["syscall"],
+              "syscall-kill:" + ("delivered" if info["killed"] else "call-not-reached")]
+        return b, info["killed"], cl
+    ev = cal["log"][k] if k is not None and k < len(cal["log"]) else ("end", "")
+    # non-trivial: the schema is partly created (after the first CREATE, before the Create request)
+    creates = [i for i, e in enumerate(cal["log"]) if e[0] == "before" and e[1].startswith("CREATE")]
+    nt = k is not None and bool(creates) and creates[0] < k
+    return b, nt, ["variant:Startup", "at:%s-%s" % (ev[0], ev[1].split(" ")[0] if ev[1] else "")]
+
+
+def startup_worker(shard, nshards):
+    col = core.Collector(PID)
+    for i, spec in enumerate(all_startup_points()):
+        if i % nshards != shard:
+            continue
+        b, nt, cl = run_startup_point(spec)
+        col.record(spec, nontrivial=nt, classes=cl, buckets=b)
+        col.bump("startup_points")
+    return col
+
+
 def replay(spec):
+    if spec.get("fault") == "startup":
+        return run_startup_point(spec)[0]
     if spec.get("fault") == "kill-at-syscall":
         ok, why = crash.strace_available()
         if not ok:
@@ -471,6 +579,9 @@ def run(ctx):
     if not ctx.quick:
         dicts += core.run_sharded("vlib.props.c09", "kill_worker",
                                   [(150, core.derive_seed(ctx.seed, "c09", i)) for i in range(n)])
+    startup_calibration()
+    nstart = len(all_startup_points())
+    dicts += core.run_sharded("vlib.props.c09", "startup_worker", [(i, n) for i in range(n)])
     ok, why = crash.strace_available()
     if ok:
         # calibrate in the parent (the forked workers inherit the tables)
@@ -479,7 +590,11 @@ def run(ctx):
                                   [(ctx.tier, i, n) for i in range(n)])
     col = core.merged(PID, dicts)
     col.extra["exhaustive"] = True
-    col.extra["exhaustive_over"] = "every SQL-event index of every listed operation variant"
+    col.extra["exhaustive_over"] = ("every SQL-event index of every listed operation variant and of "
+                                    "the first start on a new database file (schema creation)")
+    if col.extra.get("startup_points") != nstart:
+        raise core.HarnessError("start-up points incomplete: %r of %d"
+                                % (col.extra.get("startup_points"), nstart))
     if ok:
         if col.extra.get("syscall_points") != npts:
             raise core.HarnessError("system-call points incomplete: %r of %d"
